@@ -65,11 +65,13 @@ fn page_leaf_elements_cast<'a>(p: &'a Page) -> (r: &'a [LeafElement])
 fn page_branch_elements_cast<'a>(p: &'a Page) -> (r: &'a [BranchElement])
     ensures r@.len() == p.count, r@ == page_branch_elems(*p),
 { unimplemented!() }
-impl<'a> Leaf<'a> {
-    // node.rs Leaf::key: the key bytes (Bytes::as_ref; assumed)
+// value bytes of an in-memory entry: the value, or the 16 bytes of the nested bucket's header
+spec fn leaf_val_len(l: Leaf) -> nat { match l { Leaf::Bucket(_, _) => 16, Leaf::Kv(_, v) => bytes_view(v).len() } }
+impl BucketMeta {
+    // bucket.rs `AsRef<[u8]> for BucketMeta`: the struct's 16 bytes (raw-pointer view; Kani k1_bucket_meta_codec pins length and content)
     #[verifier::external_body]
-    fn key(&self) -> (r: &[u8])
-        ensures r@ == self.key_seq(),
+    fn as_ref(&self) -> (r: &[u8])
+        ensures r@.len() == 16,
     { unimplemented!() }
 }
 // the payload bytes of a leaf element in a mapped page, and the bucket header such bytes denote
